@@ -44,7 +44,8 @@ structure Leniency where
   /-- `String` / `ID` / enum positions accept a json.Number (a number of reflect kind String) -/
   jsonNumberAsString : Bool := false
   /-- a list position may hold a non-list value that fits the innermost named type
-      (for supplied values: the single-value-to-list coercion; for results: R14d) -/
+      (for supplied values: the single-value-to-list coercion; for results: R14d, repaired — the
+      theorems about results use `Leniency.afterR14d`) -/
   flatNested : Bool := false
   deriving Repr, DecidableEq
 
@@ -53,6 +54,9 @@ def Leniency.coercion : Leniency := { flatNested := true }
 def Leniency.legacy : Leniency :=
   { enumFold := true, typenameKey := true, numericStrings := true, fractionalInt := true,
     jsonNumberAsString := true, flatNested := true }
+/-- the five leniencies that remain for RESULTS once R14d is repaired (coerced list items are
+    stored back): every list position of a result holds a list -/
+def Leniency.afterR14d : Leniency := { Leniency.legacy with flatNested := false }
 
 
 def intOK (L : Leniency) : GoVal → Bool
@@ -346,20 +350,57 @@ namespace Gql
 /- ---- hypotheses of the C14 theorems ---- -/
 
 mutual
-  /-- the value is built from nil, scalars, slices WITHOUT null items and `map[string]interface{}`
-      maps (typed slices are allowed, typed maps are not).  JSON-like values whose lists contain no
-      `null` satisfy it; it is the hypothesis that excludes R14a (a null list item meeting a list
-      type) and the typed-map `SetMapIndex` panic. -/
+  /-- REPRESENTATION INVARIANT of `GoVal` (not a restriction on Go values): `.nil` — the nil
+      interface — occurs only as an element of an `interface{}`-typed container.  A Go value of a
+      concrete element type (`[]int`, `[]map[string]interface{}`, `map[string]string` …) is never
+      the nil interface; every `GoVal` the wire codec produces from a real Go value satisfies it. -/
+  def wfB : GoVal → Bool
+    | .slice e xs => wfItemsB (e = .iface) xs
+    | .map e kvs => wfFieldsB (e = .iface) kvs
+    | _ => true
+  def wfItemsB (nilOK : Bool) : GoVals → Bool
+    | .nil => true
+    | .cons v r => (nilOK || !v.isNil) && wfB v && wfItemsB nilOK r
+  def wfFieldsB (nilOK : Bool) : GoFields → Bool
+    | .nil => true
+    | .cons _ v r => (nilOK || !v.isNil) && wfB v && wfFieldsB nilOK r
+end
+
+mutual
+  /-- hypothesis of C14_total_partial: the value is built from nil, scalars, slices and
+      `map[string]interface{}` maps, where
+        (1) NO TYPED MAP occurs (`map[string]string`, `map[string]int` …): `SetMapIndex` panics
+            when a coerced field value (`"1"` ↦ `[]string{"1"}`) is not assignable to the map's
+            element type — still present in the repaired tree, outside the JSON-like domain;
+        (2) null items occur only in `[]interface{}` slices — the representation invariant `wfB`
+            restricted to slices (a typed slice cannot hold the nil interface in Go at all).
+      Since the repair of R14a, null list items are allowed (before: no slice could hold one). -/
   def safeB : GoVal → Bool
-    | .slice _ xs => safeItemsB xs
+    | .slice e xs => safeItemsB (e = .iface) xs
     | .map e kvs => e = .iface && safeFieldsB kvs
     | _ => true
-  def safeItemsB : GoVals → Bool
+  def safeItemsB (nilOK : Bool) : GoVals → Bool
     | .nil => true
-    | .cons v r => !v.isNil && safeB v && safeItemsB r
+    | .cons v r => (nilOK || !v.isNil) && safeB v && safeItemsB nilOK r
   def safeFieldsB : GoFields → Bool
     | .nil => true
     | .cons _ v r => safeB v && safeFieldsB r
+end
+
+mutual
+  /-- every container is `[]interface{}` / `map[string]interface{}` — in particular everything
+      `encoding/json` decodes into an `interface{}` (with or without `UseNumber`), and everything
+      literal conversion (`Value.Value`) builds.  Null items and null entries are allowed. -/
+  def jsonLikeB : GoVal → Bool
+    | .slice e xs => e = .iface && jsonLikeItemsB xs
+    | .map e kvs => e = .iface && jsonLikeFieldsB kvs
+    | _ => true
+  def jsonLikeItemsB : GoVals → Bool
+    | .nil => true
+    | .cons v r => jsonLikeB v && jsonLikeItemsB r
+  def jsonLikeFieldsB : GoFields → Bool
+    | .nil => true
+    | .cons _ v r => jsonLikeB v && jsonLikeFieldsB r
 end
 
 /-- the named type exists in the schema and is an input type -/
